@@ -92,6 +92,7 @@ type World struct {
 	queries []qslot
 	obs     []api.Observer
 	events  [model.NumEvents]ecs.EventType
+	leaked  *ecs.Query0 // query left open by a callback (Op.Leak)
 
 	mappers map[string]api.Mapper
 	exch    map[string]api.Exchanger
@@ -464,6 +465,11 @@ func (x *World) run(op *model.Op, res *model.Result) *Violation {
 				if !w.IsLocked() {
 					lockedOK = false
 				}
+				if op.Leak && x.leaked == nil {
+					// a query opened inside the callback and still open when the operation returns
+					q := ecs.NewFilter0(w).Query()
+					x.leaked = &q
+				}
 			}
 		}
 		known := x.aliveHandles()
@@ -701,6 +707,11 @@ func (x *World) run(op *model.Op, res *model.Result) *Violation {
 			api.Spread(op.Cs.List(), func(s []ecs.Comp) { ev = ev.For(s...) })
 		}
 		ev.Emit(x.handle(op.E))
+	case model.OpLeakClose:
+		if x.leaked != nil {
+			x.leaked.Close()
+			x.leaked = nil
+		}
 	case model.OpGC:
 		runtime.GC()
 	case model.OpResAdd, model.OpResRemove, model.OpRegisterComp, model.OpDumpLoad, model.OpInvalid, model.OpLoadEntities:
